@@ -452,6 +452,7 @@ func c13r3(c *core.Ctx) {
 }
 
 func c13r4(c *core.Ctx) {
+	eofDoesNotCloseSocket(c)
 	p := c.P
 	m := remote(p)
 	n := 0
@@ -817,5 +818,45 @@ func stdlibPanicsGuarded(c *core.Ctx) {
 				fmt.Sprintf("reached only with a key of %d bytes", spec.size),
 				fmt.Sprintf("%s is reached with a key whose length is not known to be %d: it panics on any other size, and the key is supplied by the peer (a truncated public-key item in pair-setup M5, or a stored controller key of the wrong size in pair-verify M3) — the handler panics instead of answering", spec.callee, spec.size))
 		}
+	}
+}
+
+// eofDoesNotCloseSocket: the end of the peer's sending direction is not a reason to close the socket. A controller that sends its
+// request and shuts down its sending side (FIN) is still reading; net/http's background read reaches DecryptedRead while the
+// handler is at work, the read-ahead Peek answers io.EOF, and a DecryptedRead that closes the socket on every error other than a
+// time-out tears the connection down under the response: the request is answered with a dropped connection (20 of 20 GET
+// /accessories of a 30-accessory bridge). Returning the error is enough — net/http closes the connection once the response is out.
+func eofDoesNotCloseSocket(c *core.Ctx) {
+	f := c.P.Func("hap", "(*Connection).DecryptedRead")
+	if f == nil {
+		c.Undecided("DecryptedRead", token.NoPos, "not found")
+		return
+	}
+	isEOF := func(v ssa.Value) bool {
+		u, ok := v.(*ssa.UnOp)
+		if !ok {
+			return false
+		}
+		g, ok := u.X.(*ssa.Global)
+		return ok && g.Pkg != nil && g.Pkg.Pkg.Path() == "io" && g.Name() == "EOF"
+	}
+	notEOF := core.CmpFact(func(x, y ssa.Value) (bool, bool) {
+		if isEOF(x) || isEOF(y) {
+			return false, true
+		}
+		return false, false
+	})
+	n := 0
+	core.Instrs(f, func(i ssa.Instruction) {
+		cc := core.CallOf(i)
+		if cc == nil || !cc.IsInvoke() || cc.Method.Name() != "Close" || !fromRawSocket(cc.Value) {
+			return
+		}
+		n++
+		c.Check(core.Dominated(i, notEOF), "eof-does-not-close-socket@"+fname(f), posOf(i), "the socket is closed on a read error only when the error is not io.EOF",
+			"DecryptedRead closes the socket when the read-ahead reports io.EOF: a peer that has sent its request and shut down its sending side gets the connection closed under the response that is being written")
+	})
+	if n == 0 {
+		c.OK("eof-does-not-close-socket@"+fname(f), f.Pos(), "DecryptedRead never closes the socket")
 	}
 }
